@@ -1,11 +1,11 @@
 (* C04 (codec wrapper): Encoder/Decoder objects compose the shape (un)packer with the post-encoder / pre-decoder
    exactly once; the direct-call shortcut is extensionally the same function.  Over the skeleton of
-   mashumaro/codecs/_builder.py as translated from /repo on this run (VerifGen.K16).  With  pre = parse_F  and
+   mashumaro/codecs/_builder.py as translated from /repo on this run (VerifGen.K40).  With  pre = parse_F  and
    E = unpack_ls  this is Fmt.decode, with post = ser_F and E = pack_ls it is Fmt.encode: the codec objects and the
    mixin methods are the same composition. *)
 From Coq Require Import List Bool.
 From Verif Require Import CodecWrap CodecWrapProofs.
-From VerifGen Require Import K16.
+From VerifGen Require Import K40.
 Import ListNotations.
 
 Theorem C04_codec_decode_is_unpack_after_predecoder :
